@@ -128,10 +128,14 @@ MsgFields(top, hdr) ==
        [] hdr = "emptyval" -> base \o <<"X-Empty">>
        [] OTHER            -> base
 
+\* hdr = "ext": every node also carries the fields behind BODYSTRUCTURE's extension data, each with a value of its own
+\* (derived from the node's address): an embedded message has them on the message/rfc822 part AND on its own root
+ExtFields == <<"Content-Disposition", "Content-Language", "Content-Location", "Content-MD5">>
 MimeFields(t, hdr) ==
-  IF t.k = "leaf"
-  THEN IF hdr = "noct" THEN <<>> ELSE <<"Content-Type", "Content-Transfer-Encoding">>
-  ELSE <<"Content-Type">>
+  (IF t.k = "leaf"
+   THEN IF hdr = "noct" THEN <<>> ELSE <<"Content-Type", "Content-Transfer-Encoding">>
+   ELSE <<"Content-Type">>)
+  \o (IF hdr = "ext" THEN ExtFields ELSE <<>>)
 
 FieldNames(t, isMsg, top, hdr) == (IF isMsg THEN MsgFields(top, hdr) ELSE <<>>) \o MimeFields(t, hdr)
 
@@ -266,6 +270,7 @@ Struct(t, a, L, sh, isMsgRoot) ==
        hdr    |-> Range(HdrIdx(L, a)),
        body   |-> Range(PartBodyIdx(L, a)),
        lines  |-> (t.k = "emb") \/ (t.k = "leaf" /\ (noct \/ d.type = "text")),
+       ext    |-> sh.hdr = "ext",     \* extension data of THIS node: disposition, language, location (and MD5 unless multipart)
        kids   |-> IF t.k = "multi" THEN [i \in 1..Len(t.kids) |-> Struct(t.kids[i], a \o <<i>>, L, sh, FALSE)]
                   ELSE IF t.k = "emb" THEN <<Struct(t.kids[1], a \o <<1>>, L, sh, TRUE)>>
                   ELSE <<>>,
